@@ -29,6 +29,8 @@ type World struct {
 	BuildCfg string
 	LoadS    float64
 
+	genv      *guardEnv
+	subst     map[ssa.Value]string
 	callers   map[*ssa.Function][]ssa.CallInstruction
 	fieldFns  map[*types.Var][]*ssa.Function
 	fnOfInstr map[ssa.Instruction]*ssa.Function
